@@ -1,7 +1,7 @@
 //! C11 — program concatenation appends bodies and merges definitions.
 //! Input: projections of A and B. Output: projections of `A + B` and of `A += B`, plus a flag saying
 //! whether the public getters agree with `to_instructions()`.
-use quil_rs::instruction::{Instruction, PragmaArgument, RESERVED_PRAGMA_EXTERN};
+use quil_rs::instruction::{DefaultHandler, Instruction, MemoryReference, PragmaArgument, Target, RESERVED_PRAGMA_EXTERN};
 use quil_rs::quil::Quil;
 use quil_rs::Program;
 use qvh::progs::{parse_all, text_of, Pools};
@@ -96,9 +96,42 @@ fn encode(p: &Proj) -> Sexp {
     )
 }
 
+/// How the operand's cached used-qubit set relates to the qubits `get_qubits` reports for its listing:
+/// exact / extra (stale qubits: C10/redefined-calibration…) / missing (C10/clone-without-body…) / both.
+/// Only a distribution tag: C11 states union and identity relative to the operands' REPORTED sets.
+fn cache_kind(p: &Program) -> &'static str {
+    let listing: std::collections::HashSet<_> =
+        p.to_instructions().iter().flat_map(|i| i.get_qubits().into_iter().cloned().collect::<Vec<_>>()).collect();
+    let used = p.get_used_qubits();
+    let extra = used.iter().any(|q| !listing.contains(q));
+    let missing = listing.iter().any(|q| !used.contains(q));
+    match (extra, missing) {
+        (false, false) => "exact",
+        (true, false) => "extra",
+        (false, true) => "missing",
+        (true, true) => "both",
+    }
+}
+
+/// Operands whose cache is NOT what re-adding their instructions would give, obtained through the public API.
+fn derive(p: &Program, how: u64) -> Program {
+    match how % 6 {
+        0 => p.clone_without_body_instructions(),
+        1 => p.wrap_in_loop(MemoryReference { name: "cnt".to_string(), index: 0 }, Target::Fixed("loop".to_string()), 2),
+        2 => p.expand_calibrations().unwrap_or_else(|_| p.clone()),
+        3 => {
+            let mut q = p.clone();
+            q.resolve_placeholders();
+            q
+        }
+        4 => p.simplify(&DefaultHandler).unwrap_or_else(|_| p.clone()),
+        _ => p.wrap_in_loop(MemoryReference { name: "cnt".to_string(), index: 0 }, Target::Fixed("loop".to_string()), 0),
+    }
+}
+
 fn add_case(ctx: &mut Ctx, a: &Program, b: &Program) {
     let (pa, pb) = (project(a), project(b));
-    let input = tagged("add", vec![encode(&pa), encode(&pb)]);
+    let input = tagged("add", vec![encode(&pa), encode(&pb), tagged("caches", vec![atom(cache_kind(a)), atom(cache_kind(b))])]);
     let inputs_ok = pa.getters_ok && pb.getters_ok;
     ctx.case(input, || {
         let sum = a.clone() + b.clone();
@@ -117,6 +150,13 @@ fn add_case(ctx: &mut Ctx, a: &Program, b: &Program) {
                 tagged("eq", vec![boolean(sum == acc)]),
                 tagged("getters", vec![boolean(inputs_ok && ps.getters_ok && pacc.getters_ok && pvia.getters_ok)]),
                 encode(&pvia),
+                // identities under Program's own `==`, for + and +=
+                tagged("ident", vec![
+                    boolean(Program::new() + b.clone() == *b),
+                    boolean(a.clone() + Program::new() == *a),
+                    boolean({ let mut e = Program::new(); e += b.clone(); e == *b }),
+                    boolean({ let mut x = a.clone(); x += Program::new(); x == *a }),
+                ]),
             ],
         )
     });
@@ -137,6 +177,23 @@ fn add3_case(ctx: &mut Ctx, a: &Program, b: &Program, c: &Program) {
                  tagged("eq", vec![boolean(left == right)])],
         )
     });
+}
+
+/// The instructions of a text in SOURCE order, one by one (`parse_all` returns the parsed program's listing, in
+/// which a redefinition has already replaced the earlier definition).
+fn parse_all_in_order(text: &str) -> Vec<Instruction> {
+    // split at top-level lines (a line that does not start with whitespace starts a new instruction)
+    let mut chunks: Vec<String> = vec![];
+    for line in text.lines() {
+        if line.starts_with(char::is_whitespace) && !chunks.is_empty() {
+            let last = chunks.last_mut().unwrap();
+            last.push('\n');
+            last.push_str(line);
+        } else {
+            chunks.push(line.to_string());
+        }
+    }
+    chunks.iter().flat_map(|c| parse_all(c)).collect()
 }
 
 fn program_of(instrs: &[Instruction]) -> Program {
@@ -241,6 +298,46 @@ fn run(ctx: &mut Ctx) {
         add3_case(ctx, &c, &a, &a);
     }
 
+    // 1d. operands whose cached used-qubit set is inexact, in both directions, on the left, on the right and on
+    //     both sides, for + / += (add_case) and sums of three
+    {
+        let stale_texts = [
+            "DEFCAL X 0:\n\tY 7\nDEFCAL X 0:\n\tY 13",                       // used {0,7,13}, listing {0,13}
+            "DEFCAL MEASURE 2 addr:\n\tX 11\nDEFCAL MEASURE 2 addr:\n\tX 2\nX 0", // stale 11
+            "DEFCAL Y q:\n\tX q\n\tZ 9\nDEFCAL Y q:\n\tX q\nH 1",
+            "DEFCAL X 0:\n\tY 7\nX 3\nDEFCAL X 0:\n\tNOP\nDEFCAL X 5:\n\tNOP",
+        ];
+        let base_texts = [
+            "X 0",
+            "DEFCAL X 5:\n\tNOP\nX 0",
+            "DEFCAL X 0 1:\n\tFENCE 0 1\nDEFCAL MEASURE 4:\n\tFENCE 4\nMEASURE 0 ro[0]\nDECLARE ro BIT",
+            "DEFFRAME 0 \"rf\":\n\tDIRECTION: \"tx\"\nDEFCAL X 0:\n\tPULSE 0 \"rf\" wf\nDEFWAVEFORM wf:\n\t1\nX 0\nX 6",
+        ];
+        let mut ops: Vec<Program> = vec![Program::new()];
+        for t in stale_texts {
+            ops.push(program_of(&parse_all_in_order(t)));
+        }
+        for t in base_texts {
+            let p = program_of(&parse_all(t));
+            for how in 0..6 {
+                ops.push(derive(&p, how));
+            }
+            ops.push(p);
+        }
+        for (i, a) in ops.iter().enumerate() {
+            for (j, b) in ops.iter().enumerate() {
+                // quick: a third of the grid (every operand still appears on each side several times)
+                if quick && (i + 2 * j) % 3 != 0 && i != 0 && j != 0 {
+                    continue;
+                }
+                add_case(ctx, a, b);
+                if (i + j) % 7 == 0 {
+                    add3_case(ctx, a, b, &ops[(i * 5 + j * 3 + 1) % ops.len()]);
+                }
+            }
+        }
+    }
+
     // 2. exhaustive pairs of short programs over an alphabet with two values per key in every kind
     let alphabet: Vec<Instruction> = [
         "DECLARE ro BIT[2]",
@@ -311,8 +408,15 @@ fn run(ctx: &mut Ctx) {
             }
             program_of(&v)
         };
-        let a = mk(&mut rng);
-        let b = if rng.chance(1, 10) { a.clone() } else { mk(&mut rng) };
+        let mut a = mk(&mut rng);
+        let mut b = if rng.chance(1, 10) { a.clone() } else { mk(&mut rng) };
+        // inexact caches: derived through the API (1/6 each side); stale ones arise from the pool's redefinitions
+        if rng.chance(1, 6) {
+            a = derive(&a, rng.below(6));
+        }
+        if rng.chance(1, 6) {
+            b = derive(&b, rng.below(6));
+        }
         add_case(ctx, &a, &b);
         if rng.chance(1, 4) {
             let c = if rng.chance(1, 5) { a.clone() } else { mk(&mut rng) };
